@@ -5,6 +5,8 @@ patch=$1; shift
 cd /repo && git status --short | grep -q . && { echo "/repo is not clean"; exit 2; }
 git -C /repo apply --check "$patch" || { echo "PATCH DOES NOT APPLY TO /repo"; exit 2; }
 git -C /repo apply "$patch"
+# the regression cases as committed (VERIF_HOME keeps evidence and replays out of /verif)
+mkdir -p /tmp/verif-eval && rm -rf /tmp/verif-eval/corpus && cp -r /verif/corpus /verif/known_findings.json /tmp/verif-eval/
 for id in "$@"; do
   echo "== $id on $(basename $(dirname $patch))/$(basename $patch)"
   (cd /verif && VERIF_HOME=/tmp/verif-eval timeout 1800 ./check $id --tier ${TIER:-quick} 2>&1 | grep -E "^VIOLATION|signature|quick:|thorough:|INCONCLUSIVE|KNOWN" | head -8)
